@@ -1041,3 +1041,27 @@ def replay_arg(viol):
              "showv(R) :- copy_term(R, C), term_variables(C, Vs), nv(Vs, 0), write_term(C, [numbervars(true), quoted(true)]), nl.\n"
              "nv([], _).\nnv(['$VAR'(N)|Vs], N) :- N1 is N + 1, nv(Vs, N1).\n")
     return run_cases(prog, cases, {"model": viol}, "C23", "arg", batch=True)
+
+
+# ---------------------------------------------------------------- C20 (copying strings that share storage)
+def replay_string_copy(viol):
+    """a term that mentions a string and suffixes of it (which share its storage), in every order, is
+    copied by copy_term/2 and findall/3; the copy must be identical to the original and to the same term
+    written with explicit list cells"""
+    prog = """
+:- use_module(library(lists)).
+show(X) :- write(X), nl.
+explode([], []).
+explode([C|Cs], [C|Ds]) :- explode(Cs, Ds).
+skip(0, S, S).
+skip(N, [_|S0], S) :- N > 0, N1 is N-1, skip(N1, S0, S).
+ck(T) :- T =.. [F|As], maplist(explode, As, Ls), R =.. [F|Ls], copy_term(T, C1), findall(T, true, [C2]),
+         ( C1 == T, C1 == R, C2 == T, C2 == R -> show(same) ; show(differs) ).
+"""
+    subjects = ["abcdefghijklmnopqrstuvwxyz0123456789", "äöü€\U0001F600abcdefghijklmnopqrstuvwxyz"]
+    cases = []
+    for s in subjects:
+        for n1, n2 in ((1, 2), (3, 9), (9, 18), (10, 27), (8, 16)):
+            for shape in ("f(S,A,B)", "f(A,S,B)", "f(A,B,S)", "f(B,A,S)", "g(A,S)", "g(B,B)"):
+                cases.append(("S = \"%s\", skip(%d, S, A), skip(%d, S, B), ck(%s)" % (s, n1, n2, shape), "same"))
+    return run_cases(prog, cases, {"model": viol}, "C20", "string_copy", batch=True)
